@@ -275,10 +275,12 @@ def compare(implp, modelp, agg, mismatches, oracle_viol, lat_viol, xlines, sampl
     if modelp:
         model_cases = read_cases(modelp)
     for case in read_cases(implp):
+        mcase = next(model_cases, None) if model_cases else None
         if case[1] is None:
             xlines.append(case[0]); continue
         cline, p, evs = case
-        mcase = next(model_cases, None) if model_cases else None
+        if mcase is not None and mcase[1] is None:
+            mcase = None
         agg["cases"] += 1; agg["events"] += len(evs)
         key = f"k={p['k']} L={p['L']} dual={p['dual']}"
         agg["cfg"][key] += 1
